@@ -554,8 +554,83 @@ impl FlowGen {
         if d == 0 || !self.spend(2) {
             return self.simple_stmt(ctx);
         }
-        match self.rng.weighted(&[14, 6, 6, 6, 5, 5, 4, 4, 3, 3, 4, 3]) {
+        match self.rng.weighted(&[14, 6, 6, 6, 5, 5, 4, 4, 3, 3, 4, 3, 2]) {
             0 => self.simple_stmt(ctx),
+            12 => {
+                // closures made in a child scope (one per loop iteration) of a scope that holds no
+                // variable yet; that scope then declares a name the closures mention, and they are
+                // called: they must find the later declaration (variables are captured, not values,
+                // and a scope is a scope whether or not it is empty when its children are made)
+                if self.frozen_body {
+                    return self.simple_stmt(ctx);
+                }
+                self.feat("forward-reference-into-empty-scope");
+                let cs = self.fresh("c");
+                let fw = self.fresh("w");
+                let i = self.fresh("i");
+                let a = self.int_lit();
+                let b = self.int_lit();
+                let k = self.int_expr(ctx, 1);
+                let reader = Ex::Lambda(vec![], Box::new(bin(var(&fw), "+", var(&i))));
+                let writer = Ex::Lambda(
+                    vec![],
+                    Box::new(Ex::Seq(
+                        vec![Ex::OpAssign(false, Box::new(lv(&fw)), "+".into(), Box::new(var(&i))), var(&fw)],
+                        false,
+                    )),
+                );
+                let made = if self.rng.chance(1, 3) { writer } else { reader };
+                let block = Ex::Seq(
+                    vec![
+                        declare(
+                            &cs,
+                            Ex::For(
+                                vec![Clause::Each(lv(&i), Ex::List(vec![a, b]))],
+                                Box::new(ForBody::Yield(made, None)),
+                            ),
+                        ),
+                        declare(&fw, k),
+                        Ex::List(vec![
+                            Ex::Call(Box::new(Ex::Index(Box::new(var(&cs)), Box::new(int(0)))), vec![]),
+                            Ex::Call(Box::new(Ex::Index(Box::new(var(&cs)), Box::new(int(1)))), vec![]),
+                            var(&fw),
+                        ]),
+                    ],
+                    false,
+                );
+                match self.rng.below(4) {
+                    0 => Ex::Call(Box::new(Ex::Lambda(vec![], Box::new(block))), vec![]),
+                    1 => {
+                        let n = self.fresh("n");
+                        let res = self.fresh("r");
+                        Ex::Call(
+                            Box::new(Ex::Lambda(
+                                vec![lv(&n)],
+                                Box::new(Ex::Seq(
+                                    vec![
+                                        declare(&res, Ex::Null),
+                                        Ex::While(
+                                            Box::new(bin(var(&n), "<", int(1))),
+                                            Box::new(Ex::Seq(
+                                                vec![
+                                                    Ex::OpAssign(false, Box::new(lv(&n)), "+".into(), Box::new(int(1))),
+                                                    Ex::Assign(false, Box::new(lv(&res)), Box::new(block)),
+                                                ],
+                                                false,
+                                            )),
+                                        ),
+                                        var(&res),
+                                    ],
+                                    false,
+                                )),
+                            )),
+                            vec![int(0)],
+                        )
+                    }
+                    2 => Ex::Try(Box::new(Ex::Throw(Box::new(int(1)))), Box::new(Lv::Underscore), Box::new(block)),
+                    _ => Ex::Switch(Box::new(self.int_lit()), vec![(Lv::Underscore, block)]),
+                }
+            }
             1 if self.rng.chance(1, 4) => {
                 // both branches declare the same name: it is declared afterwards whichever ran
                 self.feat("declared-in-both-branches");
